@@ -229,17 +229,17 @@ def finder_inst(tier):
                    '  void *arr[2] = { &sbA, &sbB }; unsigned long in_len; __CPROVER_assume(in_len <= 2);\n'
                    '  %s.len = in_len; %s.elem = arr; unsigned long in_w; g_w = in_w;\n'
                    '  uintptr_t in_example;\n  void *r = (void *)$ROOT((const void *)in_example);\n' % (SB, L, L))
-    pick = lambda tu, fn: find_func(tu, 'find_sandbox_from_example')
+    pick = lambda tu, fn: find_func(tu, 'find_sandbox_from_example', 'rlbox::rlbox_sandbox<rlbox::vsbx>')
     return Inst('c04_find_sandbox_from_example', 'tainted_volatile<int*, vsbx>& tv', 'tainted<int*, vsbx> t = tv;', cl, h,
                 leaves=['dynamic_check', 'vsbx.impl_is_pointer_in_sandbox_memory'], prop=PROP, root_name='find_sandbox_from_example', tier=tier,
                 pre=PRE_GHOST + ' unsigned long g_w;', root_pick=pick, loop_contracts={('find_sandbox_from_example', 0): lc},
                 note='loop over the live-sandbox list by loop contract (inductive; ghost witness index g_w instead of forall); list of the <= 2 live instances of the two-slot verification backend')
 
 
-def ptr_array_inst(n, tier):
+def ptr_array_inst(n, tier, cls='vsbx'):
     """tainted<int*[N]> t = tv: element-wise translation of an array of pointer cells (loop contract, witness index)"""
-    TVA = cs('rlbox::tainted_volatile<int *[%d], rlbox::vsbx>' % n)
-    TA = cs('rlbox::tainted<int *[%d], rlbox::vsbx>' % n)
+    TVA = cs('rlbox::tainted_volatile<int *[%d], rlbox::%s>' % (n, cls))
+    TA = cs('rlbox::tainted<int *[%d], rlbox::%s>' % (n, cls))
     cell = '$0'
     W = 'V_WHICH((uintptr_t)%s)' % cell
     FROM = '%s->data._M_elems[g_w]' % cell
@@ -256,11 +256,38 @@ def ptr_array_inst(n, tier):
     h = REGIONS + ('  struct %s cell; unsigned long in_w; g_w = in_w; __CPROVER_assume(in_w < %d);\n'
                    '  __CPROVER_assume(V_WHICH((uintptr_t)&cell) != -1);\n  g_expect_example = (uintptr_t)&cell;\n'
                    '  struct %s r = $ROOT(&cell);\n' % (TVA, n, TA))
-    pick = lambda tu, fn: find_func(tu, 'tainted', 'rlbox::tainted<int *[%d], rlbox::vsbx>' % n, lambda f, rn: 'tainted_volatile' in f['type']['qualType'])
-    return Inst('c04_load_ptr_array_%d' % n, 'tainted_volatile<int*[%d], vsbx>& tv' % n, 'tainted<int*[%d], vsbx> t = tv;' % n, cl, h,
+    pick = lambda tu, fn: find_func(tu, 'tainted', 'rlbox::tainted<int *[%d], rlbox::%s>' % (n, cls), lambda f, rn: 'tainted_volatile' in f['type']['qualType'])
+    return Inst('c04_load_ptr_array_%d%s' % (n, '' if cls == 'vsbx' else '_' + cls), 'tainted_volatile<int*[%d], %s>& tv' % (n, cls), 'tainted<int*[%d], %s> t = tv;' % (n, cls), cl, h,
                 leaves=['dynamic_check', U_NOCTX_LEAF], prop=PROP, root_name='tainted', tier=tier, pre=PRE_GHOST + ' unsigned long g_w;', pre_defines=OBJVIEW,
                 root_pick=pick, loop_contracts={('convert_type_non_class', 0): lc},
-                note='array of %d pointer cells; loop by loop contract with a ghost witness index' % n)
+                note='array of %d pointer cells; loop by loop contract with a ghost witness index; backend %s%s' % (n, cls, '' if cls == 'vsbx' else ' (representation as wide as a host pointer but not the identity: still element by element)'))
+
+
+def ptr_array_store_inst(n, tier, cls='vsbx'):
+    """tv = t for an array of pointers: every element is translated to the guest representation relative to the cell's sandbox"""
+    TVA = cs('rlbox::tainted_volatile<int *[%d], rlbox::%s>' % (n, cls))
+    TA = cs('rlbox::tainted<int *[%d], rlbox::%s>' % (n, cls))
+    W = 'V_WHICH((uintptr_t)$this)'
+    SRC = '(uintptr_t)$0->data._M_elems[g_w]'
+    DST = '$this->data._M_elems[g_w]'
+    cl = [('wf', '__CPROVER_requires(V_BACKEND_WF)'),
+          ('cell_obj', '__CPROVER_requires(__CPROVER_rw_ok($this, sizeof(struct %s)) && V_WHICH((uintptr_t)$this) != -1 && g_expect_example == (uintptr_t)$this && g_w < %d)' % (TVA, n)),
+          ('src_obj', '__CPROVER_requires(__CPROVER_r_ok($0, sizeof(struct %s)))' % TA),
+          ('null_stores_zero', '__CPROVER_ensures(%s == 0 ==> %s == 0)' % (SRC, DST)),
+          ('element_relative_to_cells_sandbox', '__CPROVER_ensures((%s != 0 && V_IN(%s, %s)) ==> MI(%s) == MI(%s) - MI(V_BASE[%s]))' % (SRC, W, SRC, DST, SRC, W)),
+          ('frame', '__CPROVER_assigns(__CPROVER_object_whole($this))')]
+    lc = ('__CPROVER_assigns($LV, __CPROVER_object_whole($0))\n'
+          '__CPROVER_loop_invariant($LV <= %d)\n'
+          '__CPROVER_loop_invariant((g_w < $LV && (uintptr_t)$1->_M_elems[g_w] == 0) ==> $0->_M_elems[g_w] == 0)\n'
+          '__CPROVER_loop_invariant((g_w < $LV && (uintptr_t)$1->_M_elems[g_w] != 0 && V_IN(V_WHICH((uintptr_t)$2), (uintptr_t)$1->_M_elems[g_w])) ==> MI($0->_M_elems[g_w]) == MI((uintptr_t)$1->_M_elems[g_w]) - MI(V_BASE[V_WHICH((uintptr_t)$2)]))\n'
+          '__CPROVER_decreases(%d - $LV)' % (n, n))
+    h = REGIONS + ('  struct %s cell; struct %s v; unsigned long in_w; g_w = in_w; __CPROVER_assume(in_w < %d);\n'
+                   '  __CPROVER_assume(V_WHICH((uintptr_t)&cell) != -1);\n  g_expect_example = (uintptr_t)&cell; uintptr_t in_val = (uintptr_t)v.data._M_elems[in_w];\n'
+                   '  $ROOT(&cell, &v);\n' % (TVA, TA, n))
+    return Inst('c04_store_ptr_array_%d%s' % (n, '' if cls == 'vsbx' else '_' + cls), 'tainted_volatile<int*[%d], %s>& tv, tainted<int*[%d], %s>& t' % (n, cls, n, cls), 'tv = t;', cl, h,
+                leaves=['dynamic_check', S_NOCTX_LEAF], prop=PROP, root_name='operator=', tier=tier, pre=PRE_GHOST + ' unsigned long g_w;', pre_defines=OBJVIEW,
+                loop_contracts={('convert_type_non_class', 0): lc},
+                note='store of an array of %d pointers; loop by loop contract with a ghost witness index; backend %s' % (n, cls))
 
 
 def same_repr_copy_inst(n, tier):
@@ -289,7 +316,7 @@ def same_repr_copy_inst(n, tier):
 
 def units(tier):
     insts = entry_points(tier) + lemmas(tier) + cell_ops(tier) + [free_inst(tier), free_overload_inst('opaque', tier), free_overload_inst('cell', tier), finder_inst(tier)] + [ptr_array_inst(n, tier) for n in ([4] if tier == 'quick' else [1, 4, 16, 64])]
-    insts += [same_repr_copy_inst(0, tier), same_repr_copy_inst(3, tier)]
+    insts += [same_repr_copy_inst(0, tier), same_repr_copy_inst(3, tier), ptr_array_inst(4, tier, 'vsbx64'), ptr_array_store_inst(4, tier), ptr_array_store_inst(4, tier, 'vsbx64')]
     # the no-context paths find the sandbox through the live registry: its exactness under create/destroy in any order
     # (contracts of C14) is what makes "relative to that sandbox and never relative to another" hold across histories
     from . import C14
